@@ -2,7 +2,26 @@ package run
 
 import (
 	"os"
+	"os/exec"
 	"syscall"
 )
 
 func syscallQuit() os.Signal { return syscall.SIGQUIT }
+
+// killedBySignal returns the name of the signal that ended the child from outside (SIGKILL, SIGTERM), or "".
+// A Go panic or fatal error ends the process with exit status 2 (or SIGABRT/SIGSEGV it raises itself), not these.
+func killedBySignal(err error) string {
+	ee, ok := err.(*exec.ExitError)
+	if !ok || ee.ProcessState == nil {
+		return ""
+	}
+	ws, ok := ee.ProcessState.Sys().(syscall.WaitStatus)
+	if !ok || !ws.Signaled() {
+		return ""
+	}
+	switch ws.Signal() {
+	case syscall.SIGKILL, syscall.SIGTERM:
+		return ws.Signal().String()
+	}
+	return ""
+}
